@@ -253,9 +253,9 @@ def check_solve(case, ctx):
         ev = np.exp(rs.uniform(0., np.log(case['cond']), na))
         Ka = (Q * ev).dot(Q.T)
     K = np.zeros((n, n))
-    K[np.ix_(active, active)] = (Ka + Ka.T) / 2.
-    f1 = rs.normal(size=n)
-    f2 = rs.normal(size=n)
+    K[np.ix_(active, active)] = (Ka + Ka.T) / 2. * case.get('kscale', 1.)
+    f1 = rs.normal(size=n) * case.get('kscale', 1.)
+    f2 = rs.normal(size=n) * case.get('kscale', 1.)
     Ks = csr_matrix(K)
     name = 'static'
     ctx.nontrivial = bool(case['nulls'])
@@ -394,7 +394,7 @@ def _solve_strategy(draw, tier='quick'):
     size = draw(st.integers(2, 60 if tier == 'quick' else 300))
     return {'seed': draw(st.integers(0, 2 ** 31 - 1)), 'size': size, 'nulls': draw(st.booleans()),
             'nactive': draw(st.integers(1, size)), 'cond': draw(st.sampled_from([10., 1e3, 1e5])), 's': draw(gen.fl(-3., 3.)),
-            'structure': draw(st.sampled_from(['random', 'random', 'chain']))}
+            'structure': draw(st.sampled_from(['random', 'random', 'chain'])), 'kscale': draw(st.sampled_from([1., 1., 1e-12, 1e-6, 1e8]))}
 
 
 @st.composite
